@@ -214,14 +214,19 @@ CLAIMED["C08"] = dict(
 )
 
 CLAIMED["C18"] = dict(
-    category="exploration",
-    text=("Bounded stand-in only: the compiled callable is produced by Dynamo/AOT at run time and is not source text, so no proof obligation can be generated from /repo for it. "
-          "The check evaluates the C01 step contract at run time on the per-group step compiled with the eager and aot_eager backends (static and dynamic modes): parameters and "
-          "checkpointable state after every step must equal the uncompiled optimizer's bitwise, over configurations covering every branch of the group step, across the warm-up "
-          "switch, refresh steps and gradient-presence changes; the eager optimizer is compared with the float64 reference of the documented rule on the same configurations."),
-    design_ref="DESIGN.md §4/C18",
-    note="no obligations; Dynamo/AOTAutograd are external; inductor out of scope; 6 configurations quick / 24 thorough x backends x modes x 6 steps",
-    technique="bounded run-time evaluation of the step contract on the compiled callable (no deductive obligations are possible for a run-time artefact)",
+    category="other",
+    text=("The compiled callable is produced by Dynamo/AOT at run time and is not source text; Dynamo's correctness is a TRUSTED contract [D]: torch.compile(f, numerics-preserving "
+          "backend) is extensionally f executed with the tracing predicates (torch.compiler.is_compiling & co.) answering True, except inside torch.compiler.disable'd callees. "
+          "Under [D] the property reduces to obligations on the real code, which are discharged deductively: (1) wiring - _instantiate_per_group_step hands exactly the bound "
+          "_per_group_step_impl to torch.compile with the user's backend and installs the result (or the uncompiled bound method); (2) mode-independence - the real "
+          "_per_group_step_impl with its helpers, update_preconditioners / precondition of both Shampoo list classes and update_params satisfy the SAME functional contract as in "
+          "C01 / C03 (post-state = documented recurrence, observed where a step ends) with the tracing predicates answered by one symbolic boolean (False inside compiler-disabled "
+          "callees, recognised by the frame of Dynamo's real wrapper), so every obligation holds for both answers, for all values. The compiled artefact itself (eager and "
+          "aot_eager backends, static / dynamic shapes) is compared bitwise with the uncompiled optimizer and with the float64 reference at run time - bounded stand-in only."),
+    design_ref="DESIGN.md §0.6, §4/C18",
+    note=("Dynamo/AOTAutograd trusted [D]; inductor out of scope; trusted base of C01/C03 carries over; the run-time comparison is bounded: 6 configurations quick / 24 thorough x backends "
+          "x modes x 6 steps"),
+    technique=E2 + " with the tracing predicate symbolic (mode-independence of the traced region) + wiring obligations; bounded run-time comparison of the compiled artefact",
 )
 
 CLAIMED["C16"] = dict(
